@@ -115,6 +115,7 @@ class Run:
         outp = os.path.join(self.work, name + ".out")
         meta = os.path.join(self.work, "meta_" + name)
         cmd = ["java", "-XX:+UseParallelGC", "-XX:ParallelGCThreads=%d" % (2 if workers == 1 else 8), "-Xss64m", "-Xmx" + heap,
+               "-Djava.io.tmpdir=" + self.work,   # TLC's own scratch directories go with the work directory, not into /tmp
                "-cp", JAR, "tlc2.TLC",
                "-workers", str(workers), "-metadir", meta, "-config", cfgp, "-noGenerateSpecTE"]
         if simulate:
